@@ -2,7 +2,7 @@ from common import T_COMMON
 
 CFG = dict(
     theorems=["prim_wf", "uvSphere_wf", "uvSphereUnwelded_wf", "hemisphere_wf", "circle_wf", "cone_wf", "cylinder_wf", "cylinder_nocaps_wf",
-              "extrudeShape_wf", "extrudeLine_wf", "extrudePolygon_wf", "quad_wf", "cube_wf", "cubeUnwelded_wf",
+              "extrudeShape_wf", "extrudeLine_wf", "extrudePolygon_wf", "marchBlock_wf", "march_wf", "quad_wf", "cube_wf", "cubeUnwelded_wf",
               "unweld_wf", "removeUnreferenced_wf", "toPointCloud_wf", "flip_wf", "setIndices_wf",
               "append_wf", "setAttr_wf", "setAttr_delete_wf", "modifyAttr_wf", "mapAttr_wf", "setNormals_wf", "filterAttr_wf",
               "filterAttr_rejects_non_point", "filterAttrOld_breaks_triangles", "crop_wf", "removeNullFaces_wf",
@@ -14,8 +14,10 @@ CFG = dict(
         "hand-written pure models PolyVerif/Model/{Mesh,MeshOps,Primitives}.lean of modeling/mesh.go, modeling/meshops/*.go, "
         "modeling/primitives/*.go; tied to the code on every run by exact comparison of index lists (primitives) and of result "
         "shapes (operations) on generated inputs"],
-    residue=["index arithmetic of marching/canvas.go (LookupOrAdd), triangulation/bowyer_watson.go, extrude/screw.go, repeat/{circle,line,curve,fibonacci}.go: "
-             "no theorem yet; covered by the WF oracle evaluated on every mesh these generators return",
+    residue=["triangulation/bowyer_watson.go, extrude/screw.go, repeat/{circle,line,curve,fibonacci}.go: no theorem; covered by the WF oracle evaluated on every "
+             "mesh these generators return",
+             "marching cubes: marchBlock_wf / march_wf are about an abstract model of the LookupOrAdd allocation and the Append fold (any emitted triangles); it is tied "
+             "to marching/canvas.go by reading and by the WF oracle on March output only (no structural correspondence); the additional-attribute arrays of Field.March are not modelled",
              "LaplacianSmooth on Line/LineLoop topologies not modelled (VertexNeighborTable indexes m.indices[0] of an empty line loop: runtime panic, observation)",
              "material ranges are not part of WF; negative indices are unrepresentable in the model (oracle answers false)",
              "the correspondence is differential testing bounded by the generators (distribution in this file)"],
